@@ -5,7 +5,7 @@ side-effect-free subexpression -> fresh immutable local, never-reassigned let ->
 are (a) run through the Lean reference interpreter (must print the same: a TEST of the rewrite engine against the semantics),
 (b) compiled with the real compiler for both targets: same verdict (apart from the fixed-array constant-index rule) and same
 output as the unrewritten program."""
-import os, sys, json, hashlib
+import re, os, sys, json, hashlib
 sys.path.insert(0, os.path.join(os.path.dirname(os.path.abspath(__file__)), "..", "lib"))
 from common import *
 from wholeprog import *
@@ -47,6 +47,48 @@ def narrow_grid(rng):
         elif r == 3: body += [Let("x%d" % len(body), w, Cast(t, w, e)), Print(V("x%d" % (len(body))))]
         else: body.append(Print(e))
     return Prog(opaque(t), Fn("wide", [("v", "i64")], "i64", Ret(Bin("add", "i64", V("v"), I("i64", 1000)))), Main(*body))
+
+
+_WIDE_EDGES = {}
+
+
+def wide_edges(t):
+    """all (op, a, b) over boundary operands whose exact result is in range and within one bit of the type's width
+    (operands stay below 2^63: u64 arithmetic on a literal above the i64 range is miscompiled in the baseline, probe u64-arith-on-literal-above-i64-max)"""
+    if t not in _WIDE_EDGES:
+        lo, hi = tmin(t), tmax(t)
+        cand = sorted({v for v in [2, 3, 7, 1000, 46340, 46341, 65535, 65536, 92681, 2 ** 31 - 1, 2 ** 31, 2 ** 32 - 1, 2 ** 32, 3000000000, 3037000499, 3037000500, 4000000000, 4294967295,
+                                   2 ** 62, 2 ** 63 - 1, -1, -2, -3, -46341, -65536, -(2 ** 31), -(2 ** 63), -3037000500, -3037000499] if lo <= v <= hi})
+        bits = int(t[1:])
+        out = []
+        for op in ("mul", "add", "sub"):
+            for a in cand:
+                for b in cand:
+                    r = {"mul": a * b, "add": a + b, "sub": a - b}[op]
+                    if lo <= r <= hi and abs(r).bit_length() >= bits - 1 - (1 if signed(t) else 0):
+                        out.append((op, a, b))
+        res = lambda e: {"mul": e[1] * e[2], "add": e[1] + e[2], "sub": e[1] - e[2]}[e[0]]
+        out.sort(key=lambda e: (-abs(res(e)).bit_length(), e[0] != "mul", -(abs(e[1]).bit_length() + abs(e[2]).bit_length())))
+        _WIDE_EDGES[t] = out
+    return _WIDE_EDGES[t]
+
+
+def wide_const_grid(rng, k):
+    """32/64-bit arithmetic on LITERAL operands whose exact result is in range but next to the 2^31 / 2^32 / 2^63 / 2^64 boundaries (the compiler folds
+    these; the literal -> call rewrite makes the same arithmetic happen at run time); printed directly and through a let.  Program k takes the k-th
+    slice of every type's edge list, so a few programs cover all of them."""
+    body = []
+    for ti, t in enumerate(["u64", "i64", "u32", "i32"]):
+        edges = wide_edges(t)
+        per = 8 if t[1:] == "64" else 2
+        for j in range(per):
+            op, a, b = edges[(k * per + j) % len(edges)]
+            e = Bin(op, t, I(t, a), I(t, b))
+            r = {"mul": a * b, "add": a + b, "sub": a - b}[op]
+            q = len(body)
+            if q % 3 == 0 and tmin(t) <= r + 1 <= tmax(t): e = Bin("add", t, I(t, 1), e)
+            body += [Let("w%d" % q, t, e), Print(V("w%d" % q))]       # always through a typed let: a bare literal expression has no declared width
+    return Prog(Main(*body))
 
 
 def const_flow(rng):
@@ -110,6 +152,9 @@ def variants(rng, sx, per_kind):
     return out
 
 
+bad_base = set()
+
+
 def main():
     tier = os.environ.get("VERIF_TIER", "quick")
     rep = Report(PID)
@@ -126,6 +171,7 @@ def main():
     for i in range(nb): bases.append(("random", coregen.Gen(SplitMix64(seed() * 7000 + i), FEATS).program()))
     for i in range(nb): bases.append(("narrow", narrow_grid(rng)))
     for i in range(nb // 2): bases.append(("const-flow", const_flow(rng)))
+    for i in range(nb): bases.append(("wide-const", wide_const_grid(rng, (seed() - 1) * nb + i)))
     import c08
     for i in range(nb // 2): bases.append(("dyn-history", c08.history(rng, rng.choice(["i32", "i64", "u8"]), "none")))
     for name, feats, sx in catalogue.PROBES[:: (9 if tier == "quick" else 1)]: bases.append(("probe:" + name, sx))
@@ -158,12 +204,24 @@ def main():
         res = run_many([{"files": {"main.fer": m.get("text", "")}, "mode": "run", "target": target, "timeout": 30} for m in ms])
         for i, ((kind, vk, bi), m, r) in enumerate(zip(meta, ms, res)):
             if vk == "base" or not usable[i]: continue
+            if (target, bi) in bad_base: continue
             b, rb = ms[bi], res[bi]
+            if (target, bi) in bad_base: continue
+            if kind == "wide-const" and target == "native" and not rb.accepted and ("rej", bi) not in bad_base:
+                # these bases are in range by construction and accepted on the baseline: a rejection is the compiler's early evaluation going wrong
+                bad_base.add(("rej", bi))
+                errs0 = [d[2][:100] for d in rb.diags if d[0] == "error"][:2]
+                rep.fail("baserej:%s" % hashlib.sha1(b["text"].encode()).hexdigest()[:12], "a constant-arithmetic program whose every result is in range is REJECTED (%s); the same arithmetic on call results is accepted" % errs0,
+                         {"kind": "input", "files": {"main.fer": b["text"]}, "expected": {"lines": b["lines"]}, "observed": strip_ansi(rb.compile_out)[-500:], "cmd": "ferret -t main.fer"})
             if target == "wasm" and not rb.accepted: continue           # outside the common domain
             if bi not in base_checked[target] and not kind.startswith("probe:"):        # probes: C01/C02 own them (baseline + known findings)
                 base_checked[target].add(bi)
                 c0 = compare(b, rb, target)
-                if c0 and rb.accepted:
+                if c0 and rb.accepted and target == "wasm" and re.search(r'function="ferret_[iuf](128|256)_', rb.stderr or ""):
+                    # the module imports a 128/256-bit helper the shipped runtime.js lacks: the catalogue's known finding, whatever program reaches it
+                    rep.fail("base:wasm:128-bit-helper-imports", "a %s base program needs 128-bit helpers on wasm" % kind, {"kind": "input", "files": {"main.fer": b["text"]}})
+                    bad_base.add((target, bi))
+                elif c0 and rb.accepted:
                     rep.fail("base:%s:%s" % (target, hashlib.sha1(b["text"].encode()).hexdigest()[:12]), "a %s base program already differs from the reference semantics on %s (early evaluation suspected): %s" % (kind, target, c0[:200]),
                              {"kind": "input", "target": target, "files": {"main.fer": b["text"]}, "expected": {"lines": b["lines"], "term": b["term"]}, "observed": rb.lines[:60], "cmd": "ferret -o out main.fer && ./out"})
             key = "%s:%s:%s" % (vk.split(":")[0], target, hashlib.sha1(m["text"].encode()).hexdigest()[:12])
@@ -173,7 +231,12 @@ def main():
                 errs = [d for d in (r.diags if rb.accepted else rb.diags) if d[0] == "error"]
                 if errs and all(d[1] == "T0028" for d in errs):
                     st["exempt_const_index"] += 1; continue
-                rep.fail("verdict:" + key, "rewrite %s of a %s program changes the compiler's verdict on %s: original %s, rewritten %s (%s)" %
+                vkey = "verdict:" + key
+                if "wrap" in vk and rb.accepted and errs and all(("borrowed" in d[2]) for d in errs):
+                    # one defect, one key: the borrow checker keeps a loan alive up to the outer statement that contains its last use, so statements
+                    # moved into an `if true { }` block together see the loan although its last use has passed
+                    vkey = "verdict:wrap-if-true:loan-kept-to-end-of-wrapped-statement:" + target
+                rep.fail(vkey, "rewrite %s of a %s program changes the compiler's verdict on %s: original %s, rewritten %s (%s)" %
                          (vk, kind, target, "accepted" if rb.accepted else "rejected", "accepted" if r.accepted else "rejected", [d[2][:80] for d in errs][:2]),
                          dict(rp, observed=strip_ansi((r if rb.accepted else rb).compile_out)[-500:]))
                 continue
